@@ -575,6 +575,7 @@ pub fn run(op: &str, a: &Args) -> Option<Outcome> {
             Some(Outcome { observed, expected, note: String::new() })
         }
         ["info", "attr_norm"] => Some(crate::ops_more::info_attr_norm(arg(a, "doc"), arg(a, "expected"))),
+        ["info", "ns_corpus"] => Some(crate::ops_seq::info_ns_corpus(arg(a, "doc"), arg(a, "expected"))),
         ["info", "attr_corpus"] => Some(crate::ops_seq::info_attr_corpus(arg(a, "doc"), arg(a, "expected"))),
         ["info", "roundtrip"] | ["info", "roundtrip_corpus"] => Some(crate::ops_more::info_roundtrip(arg(a, "doc"))),
         ["info", "build_print_corpus"] => Some(crate::ops_more::info_build_print_inproc(arg(a, "doc"))),
@@ -882,6 +883,14 @@ pub fn grid(op: &str, limit: usize) -> (usize, Vec<(Args, Outcome)>) {
             for line in crate::ops_more::ILL_FORMED_MUTANTS.lines() {
                 let d = crate::ops_more::unescape_line(line);
                 try_one(mk(&[("doc", d.as_str())]), &mut n, &mut bad);
+            }
+        }
+        ["info", "ns_corpus"] => {
+            for line in crate::ops_seq::NS_CORPUS.lines() {
+                let mut it = line.splitn(2, '\t');
+                let (d, e) = (it.next().unwrap_or(""), it.next().unwrap_or(""));
+                let d = crate::ops_more::unescape_line(d);
+                try_one(mk(&[("doc", d.as_str()), ("expected", e)]), &mut n, &mut bad);
             }
         }
         ["info", "attr_corpus"] => {
